@@ -82,6 +82,27 @@ def gen_c01(rnd, n, thorough=False):
                 tags['ops']['jump'] = tags['ops'].get('jump', 0) + 1
             _observe(rnd, lines, layout, list(range(0, a + 1)), now, nwin=3)
         cases.append({'id': 'c01-%d' % c, 'lines': lines, 'tags': tags})
+    # two files created from ONE archive list value (as a command creating several destinations does), written
+    # one after the other at different ring positions: each file holds its own writes, also for a fresh handle
+    for j in range(6):
+        lname, layout = pick_layout(rnd, max_points=30)
+        k = len(layout)
+        a = rnd.randrange(k)
+        S, N = layout[a]
+        R = S * N
+        now = clock_in_domain(rnd, layout)
+        lines = ["createshared f g %s m %d x %08x" % (fmt_layout(layout), rnd.pick(METHODS), rnd.pick(XFF_VALID))]
+        for nm in ('f', 'g', 'f', 'g'):
+            now = advance(rnd, now, layout)
+            pts = [(now - rnd.randint(0, R - 1), value(rnd)) for _ in range(rnd.randint(1, 4))]
+            lines.append(_many(nm, a, now, pts) if rnd.chance(0.5) else "upd %s %d %d %016x %d" % (nm, a, pts[0][0], pts[0][1], now))
+            lines.append("fetch %s %d %d %d %d" % (nm, a, now - R, now, now))
+        lines += ["sync f", "sync g", "open f", "open g"]
+        for nm in ('f', 'g'):
+            for a_ in range(0, a + 1):
+                lines.append("fetch %s %d %d %d %d" % (nm, a_, now - layout[a_][0] * layout[a_][1], now, now))
+            _observe(rnd, lines, layout, [a], now, nwin=1, name=nm)
+        cases.append({'id': 'c01-shared-%d' % j, 'lines': lines, 'tags': {'layout': lname, 'levels': k, 'target': a, 'ops': {'shared_list': 1}}})
     # a window of more than a megabyte of slots over a written archive: every written interval shows
     # its value wherever it lies in the window (also after the ring has wrapped)
     N = 100000 if not thorough else 150000
@@ -265,6 +286,15 @@ def gen_c03(rnd, n, thorough=False):
                 tags['boundary_ages'] += sum(1 for t, _ in pts if any(abs(now - t - R) <= 1 for R in rets))
                 lines.append(_many('f', ident, now, pts))
                 tags['ops'][kind] = tags['ops'].get(kind, 0) + 1
+                if rnd.chance(0.2):
+                    # the next call carries an EARLIER clock (each call is judged by its own clock): a batch, possibly
+                    # empty, at a later instant first, then the same kind of batch at the earlier one
+                    later = now + rnd.pick([1, rets[0] // 2 + 1, rets[0], rets[-1], 2 * rets[-1]])
+                    if later < TMAX - 2 * rets[-1]:
+                        lines.append(_many('f', rnd.pick([-1, ident]), later, [] if rnd.chance(0.5) else [(later - rnd.randint(0, rets[0] - 1), value(rnd, nan_ok))]))
+                        back = [(max(now - boundary_age(rnd, layout), 1), value(rnd, nan_ok)) for _j in range(rnd.randint(1, 4))]
+                        lines.append(_many('f', ident, now, back))
+                        tags['ops']['clock_back'] = tags['ops'].get('clock_back', 0) + 1
             _observe(rnd, lines, layout, list(range(k)), now, nwin=2)
         cases.append({'id': 'c03-%d' % c, 'lines': lines, 'tags': tags})
     # one batch of more than 2^16 points (most of them too old): the result is that of the whole batch
@@ -469,6 +499,23 @@ def gen_c05(rnd, n, thorough=False):
                 pts = [(now - rnd.randint(0, R - 1), value(rnd, nan_ok)) for _j in range(rnd.randint(1, 12))]
                 lines.append(_many('f', ident, now, pts))
                 op = 'many'
+            elif r < 0.66 and k >= 2:
+                # a batch spread over several archives, synced; then the same batch again with only a finest
+                # point changed (the coarser points are byte-identical to what is stored), synced: what Sync
+                # acknowledged is on disk
+                pts = []
+                for a_ in range(k):
+                    lo = rets[a_ - 1] if a_ > 0 else 0
+                    pts += [(now - rnd.randint(lo, rets[a_] - 1), value(rnd, nan_ok)) for _j in range(rnd.randint(1, 2))]
+                lines += [_many('f', -1, now, pts), "sync f"]
+                if rnd.chance(0.5):
+                    lines.append("open f")
+                pts2 = list(pts)
+                pts2[0] = (pts2[0][0], fbits(float(rnd.randint(100, 200))))
+                if rnd.chance(0.3):
+                    pts2[1] = (pts2[1][0], fbits(float(rnd.randint(100, 200))))
+                lines += [_many('f', -1, now, pts2), "sync f", "dfetch f 0 %d %d %d" % (now - rets[0], now, now)]
+                op = 'partly_resent'
             elif r < 0.72:
                 # a raw dump is a read: like every read it leaves the file's bytes alone
                 lines.append("raw f %d" % rnd.randrange(k))
